@@ -291,6 +291,9 @@ class Translator:
         tgt = node.targets[0]
         val = node.value
         if isinstance(tgt, ast.Name):
+            if isinstance(val, ast.Name) and val.id in env and not val.id.startswith("__"):
+                env[tgt.id] = env[val.id]  # plain alias of a known local
+                return S.skip
             ch = attr_chain(val)
             # alias to an actor proxy
             a = self.actor_of(val, env)
